@@ -163,12 +163,13 @@ prop("C13", quick={"runs": 6000}, thorough={"runs": 100000000, "budget_s": 600},
      rules=["C13.R1 entry sets equal after Dump->Restore", "C13.R2 Read agrees", "C13.R3 counts", "C13.R4 relay through further hops", "C13.R5 stream faults: subset of intact entries"],
      probes=["relayed_through_second_hop"])
 prop("C14", quick={"runs": 6000}, thorough={"runs": 100000000, "budget_s": 600},
-     rule=TR_RULE + "Exporter and importer HTTPTransfer instances with 0-4 named caches each (partly overlapping names); Import runs against Export() through an "
+     rule=TR_RULE + "Exporter and importer HTTPTransfer instances with 0-4 named caches each (partly overlapping names, in 30 % names that need URL escaping; loggers of every shape in 40 %); Import runs against Export() through an "
      "in-process http.RoundTripper; a third of the runs inject round-trip errors, 5xx, truncated / failing bodies or a rewritten typesHash. Every 50th run is the "
-     "auxiliary (non-simulation) hash clause: 4 fresh OS processes register permutations / multiplicities of a type pool and print GobTypesHash().",
+     "auxiliary (non-simulation) hash clause: 4 fresh OS processes register permutations / multiplicities of a type pool (struct, pointer-registered, slice, map, basic kinds, "
+     "two same-named types of different packages) and print GobTypesHash(); every 1000th run a fresh process with types hash 0 on both sides transfers builtin-valued caches.",
      rules=["C14.R1 imported caches equal the exporter's of the same name; every cache is requested", "C14.R2 exporter unchanged", "C14.R3 nothing imported on hash mismatch / unknown name / non-200",
-            "C14.R4 body faults: subset of intact entries, Import returns nil", "C14.H1/H2 (auxiliary) hash independent of order and multiplicity, changes when a type is added"],
-     probes=["cache_imported", "importer_cache_unknown_to_exporter", "types_hash_fresh_process_evaluations", "concurrent_imports_from_one_handler"])
+            "C14.R4 body faults: subset of intact entries, Import returns nil", "C14.H1/H2 (auxiliary) hash independent of order and multiplicity, changes when a type is added", "C14.H3 (auxiliary) equal hashes of 0 are equal hashes: everything is imported"],
+     probes=["cache_imported", "importer_cache_unknown_to_exporter", "types_hash_fresh_process_evaluations", "zero_types_hash_transfer", "concurrent_imports_from_one_handler"])
 prop("C15", quick={"runs": 9000}, thorough={"runs": 100000000, "budget_s": 600}, level="fault_enumeration",
      rule=TR_RULE + "InvalidationIndex over 1-3 cache names with 1-3 deleters each (real backends behind a fault wrapper), generated label/key incidence structures "
      "(several labels per key, shared keys, repeated labelling, unused labels, labelled-but-absent keys, duplicated label arguments). A third of the runs are "
